@@ -193,6 +193,12 @@ def R3_booking_side(run):
         ok = ("fee_growth_global_" + side) in fields and ("protocol_fee_owed_" + side) in fields and ("fee_growth_global_" + other) not in fields and ("protocol_fee_owed_" + other) not in fields
         run.check("R3", "side[is_token_fee_in_a=%d]" % val, ok, "update_after_swap(is_token_fee_in_a=%s) writes %s" % (val, sorted(f for f in fields if "fee" in f)), loc=fn.loc(),
                   detail="writes fee_growth_global_%s, protocol_fee_owed_%s" % (side, side))
+        # every store of this side happens on every way out: no return is reachable (under this flag) around any of them, so a swap
+        # that leaves the price where it was still books its fee
+        infeasible = [b for b in range(len(fn.blocks)) if fl.state_in[b] is None]
+        skipped = sorted({w["field"] for w in ws if "block" in w and cfg.success_reach(fn, 0, cut_blocks=infeasible + [w["block"]])})
+        run.check("R3", "unconditional[is_token_fee_in_a=%d]" % val, not skipped and len(fields) >= 7, "update_after_swap(is_token_fee_in_a=%s) can return without storing %s (of %s)" % (val, skipped, sorted(fields)),
+                  loc=fn.loc(), detail="all %d stores on every path" % len(fields))
         pv = prov_of(fn, {"is_token_fee_in_a": val})
         for w in ws:
             if w["field"] == "protocol_fee_owed_" + side:
@@ -431,4 +437,37 @@ def R7_cross_checks(run):
     C16.R1_swap_wiring(RuleProxy(run, 'R7'))
 
 
-RULES = [R1_step_fee, R2_split, R3_booking_side, R4_swap_transfers, R5_collect_protocol_fees, R6_event, R7_cross_checks]
+_BITS = {"u8": 8, "u16": 16, "u32": 32, "u64": 64, "u128": 128, "usize": 64, "i8": 8, "i16": 16, "i32": 32, "i64": 64, "i128": 128, "isize": 64}
+
+
+def narrowing_casts(fn):
+    """`as` casts of a non-constant integer to a narrower integer type in fn (helpers new to the tree are read spliced in):
+    [(line, source type, target type, operand term)]. Such a cast truncates silently."""
+    pv = prov_of(fn)
+    out = []
+    for bi, bb in enumerate(fn.blocks):
+        if bb["c"]:
+            continue
+        for si, st in enumerate(bb["s"]):
+            if st["k"] == "=" and st["rv"].get("cast") == "int":
+                o = st["rv"]["a"]
+                pl = o.get("mv") or o.get("cp")
+                src = fn.locals[pl["l"]]["t"] if pl and not pl.get("p") else None
+                if src in _BITS and st["rv"]["ty"] in _BITS and _BITS[st["rv"]["ty"]] < _BITS[src]:
+                    out.append((st.get("l"), src, st["rv"]["ty"], pv.operand(o, bi, si)))
+    return out
+
+
+def R8_widths(run):
+    run.title("R8", "the step computation and the swap loop never narrow an amount or a rate with `as` (the total fee rate of an adaptive-fee pool exceeds u16; "
+                    "a truncated rate or amount is a fee nobody is charged): no integer cast to a narrower type in compute_swap / swap")
+    facts = run.facts
+    for path in ("math::swap_math::compute_swap", SL.SWAP):
+        fn = facts.need_fn(path)
+        run.touch(fn)
+        nc = narrowing_casts(fn)
+        run.check("R8", "no-narrowing@" + path.rsplit("::", 1)[-1], not nc, "%s truncates %s" % (path, "; ".join("%s as %s (was %s)" % (sh(t, 50), ty, src) for (_, src, ty, t) in nc[:3])),
+                  loc=fn.loc(nc[0][0]) if nc else fn.loc(), detail="0 narrowing integer casts")
+
+
+RULES = [R1_step_fee, R2_split, R3_booking_side, R4_swap_transfers, R5_collect_protocol_fees, R6_event, R7_cross_checks, R8_widths]
